@@ -24,11 +24,17 @@ func init() {
 }
 
 // vPar runs a and b as two goroutines under every schedule with at most 'budget' pre-emptions
+// vParLockset: also run the lockset analysis over the two threads (in-memory indexes only:
+// the store hands data over through channels, which Eraser's discipline does not know)
+var vParLockset bool
+
 func vPar(budget int, a, b func()) {
 	var wg sync.WaitGroup
 	wg.Add(2)
 	vSchedFork(true)
 	vPreempt(budget)
+	vLockset(vParLockset)
+	defer vLockset(false)
 	go func() { defer wg.Done(); a() }()
 	go func() { defer wg.Done(); b() }()
 	wg.Wait()
@@ -74,8 +80,10 @@ func vValidVec(rs []VectorResult, must, may []uint32, label string) {
 
 // flat / hnsw / ivf: Add || search, Remove || search, Remove || Remove, Flush || search, Add || Flush
 func H_C11_flat() {
-	kind := vChoose("kind", 3)
-	u := vMakeIndex(kind, L2Squared, 1, 1)
+	vParLockset = true
+	vPQConcreteCB = true
+	kind := vChoose("kind", 5)
+	u := vMakeIndexC(kind, L2Squared, 1, 1, false)
 	idx := u.idx
 	add := func(id uint32, x float32) error { return idx.Add(*NewVectorNodeWithID(id, []float32{x})) }
 	vAssert(add(5, 1) == nil && add(3, 4) == nil, "add-ok")
@@ -124,6 +132,7 @@ func H_C11_search_search_hnsw() { vSSBudget = 2; hC11SS(vKHNSW) }
 func H_C11_search_search()      { hC11SS(vChoose("kind", 5)) }
 
 func hC11SS(kind int) {
+	vParLockset = true
 	u := vMakeIndex(kind, L2Squared, 1, 1)
 	w := u
 	if vChoose("two_indexes", 2) == 1 {
@@ -152,6 +161,7 @@ func hC11SS(kind int) {
 
 // BM25: Add || search, search || search (pooled heaps), Remove || Flush
 func H_C11_text() {
+	vParLockset = true
 	ix := NewBM25SearchIndex()
 	ix.Add(5, "tick fox dog")
 	ix.Add(3, "dog")
@@ -180,6 +190,7 @@ func H_C11_text() {
 
 // hybrid: Add || Add (auto ids), Add || Remove, Add || search
 func H_C11_hybrid() {
+	vParLockset = true
 	flat, _ := NewFlatIndex(1, L2Squared)
 	h := NewHybridSearchIndex(flat, NewBM25SearchIndex(), NewRoaringMetadataIndex())
 	vAssert(h.AddWithID(5, []float32{1}, "fox", map[string]interface{}{"c": "x"}) == nil, "add-ok")
@@ -263,5 +274,50 @@ func H_C11_store_close() {
 	vAssert(e1 == nil, "close-ok")
 	_ = e2
 	vAssert(!vFSExists(dir+"/LOCK"), "lock-released")
+	vCover("ran")
+}
+
+func init() { vHarnesses["H_C11_meta"] = H_C11_meta }
+
+// metadata index: Add || search, Remove || search, Add || Add
+func H_C11_meta() {
+	vParLockset = true
+	mi := NewRoaringMetadataIndex()
+	vAssert(mi.Add(*NewMetadataNodeWithID(5, map[string]interface{}{"c": "x", "n": 3})) == nil, "add-ok")
+	vAssert(mi.Add(*NewMetadataNodeWithID(3, map[string]interface{}{"c": "y", "n": -4})) == nil, "add-ok")
+	ids := func(rs []MetadataResult) []uint32 {
+		var o []uint32
+		for _, r := range rs {
+			o = append(o, r.GetId())
+		}
+		return o
+	}
+	var rs []MetadataResult
+	var e1, e2 error
+	switch vChoose("pair", 3) {
+	case 0:
+		vPar(2, func() { e1 = mi.Add(*NewMetadataNodeWithID(9, map[string]interface{}{"c": "x", "n": 8})) },
+			func() { rs, e2 = mi.NewSearch().WithFilters(Eq("c", "x"), Gte("n", 0)).Execute() })
+		vAssert(e1 == nil && e2 == nil, "no-error-from-interleaving")
+		got := ids(rs)
+		vAssert(vContains(got, 5) && !vContains(got, 3), "completed-adds-visible")
+		for _, id := range got {
+			vAssert(id == 5 || id == 9, "only-matching-added-documents")
+		}
+	case 1:
+		vPar(2, func() { e1 = mi.Remove(*NewMetadataNodeWithID(5, nil)) },
+			func() { rs, e2 = mi.NewSearch().WithFilters(Ne("c", "zz")).Execute() })
+		vAssert(e1 == nil && e2 == nil, "no-error-from-interleaving")
+		got := ids(rs)
+		vAssert(vContains(got, 3), "untouched-document-visible")
+		after, _ := mi.NewSearch().Execute()
+		vAssert(len(after) == 1 && after[0].GetId() == 3, "visibility-after-quiescence")
+	case 2:
+		vPar(2, func() { e1 = mi.Add(*NewMetadataNodeWithID(9, map[string]interface{}{"c": "x"})) },
+			func() { e2 = mi.Add(*NewMetadataNodeWithID(2, map[string]interface{}{"n": 1})) })
+		vAssert(e1 == nil && e2 == nil, "no-error-from-interleaving")
+		after, _ := mi.NewSearch().Execute()
+		vAssert(len(after) == 4, "all-added-documents-visible")
+	}
 	vCover("ran")
 }
